@@ -70,7 +70,7 @@ class Abort(BaseException):
 
 
 class TState:
-    __slots__ = ('name', 'sem', 'pred', 'deadline', 'timed_out', 'done', 'tid', 'thread', 'why', 'timed_wait')
+    __slots__ = ('name', 'sem', 'pred', 'deadline', 'timed_out', 'done', 'tid', 'thread', 'why', 'timed_wait', 'expired_unsat')
 
     def __init__(self, name, tid):
         self.name = name
@@ -80,6 +80,7 @@ class TState:
         self.pred = None      # None => runnable
         self.deadline = None
         self.timed_out = False
+        self.expired_unsat = False   # the timed wait expired while its predicate was (still) false
         self.done = False
         self.thread = None
         self.why = ''
@@ -106,6 +107,7 @@ class Scheduler:
         self.early_fires = 0
         self.leaked_at_main_exit = []
         self.early_horizon = 100.0
+        self.poll_timers = False   # cooploop: a pending loop timer may come due while callbacks are queued (opt-in per case)
 
     # -- registration -----------------------------------------------------
     def register_current(self, name):
@@ -179,11 +181,14 @@ class Scheduler:
                 self.now = max(self.now, dl)
                 if delta > 0:
                     for ts in self.order:
-                        if not ts.done and ts.deadline is not None:
+                        # (a thread that is runnable and merely offers a due time - an event loop polling with
+                        # callbacks queued, see cooploop - is not blocked in a timed wait)
+                        if not ts.done and ts.deadline is not None and ts.pred is not None:
                             ts.timed_wait += delta
                 for ts in timed:
                     if ts.deadline <= self.now:
                         ts.timed_out = True
+                        ts.expired_unsat = ts.pred is not None and not ts.pred()
                         ts.pred = None
                         ts.deadline = None
                 continue
@@ -223,8 +228,11 @@ class Scheduler:
         me.why = why
         self._pick_and_switch(me)
 
-    def wait_until(self, pred, timeout=None, why=''):
-        """Block (virtually) until pred() is true.  Returns False on timeout."""
+    def wait_until(self, pred, timeout=None, why='', strict=False):
+        """Block (virtually) until pred() is true.  Returns False on timeout.
+        `strict`: the outcome is decided at the moment the wait expires (as for a timed lock acquisition inside
+        the interpreter): a predicate that becomes true between the expiry and this thread's next step does not
+        turn the time-out into a success."""
         me = self.me()
         if me is None or self.current is not me:
             # unmanaged thread: busy wait on real time (should not happen in spike)
@@ -248,6 +256,8 @@ class Scheduler:
         self._pick_and_switch(me)
         if me.timed_out:
             me.timed_out = False
+            if strict and me.expired_unsat:
+                return False
             return pred()
         return True
 
@@ -273,7 +283,7 @@ class NullSched:
     def emit(self, *a):
         pass
 
-    def wait_until(self, pred, timeout=None, why=''):
+    def wait_until(self, pred, timeout=None, why='', strict=False):
         if pred():
             return True
         if timeout is not None:
@@ -412,17 +422,20 @@ class Condition:
         else:
             self._lock._owner = None
             st = None
-        got = SCHED.wait_until(lambda: token.flag, timeout, 'cond.wait')
-        if not got:
-            try:
-                self._waiters.remove(token)     # identity comparison (see _Token)
-            except ValueError:
-                pass
+        got = SCHED.wait_until(lambda: token.flag, timeout, 'cond.wait', True)
+        # As in CPython's threading.Condition.wait: the lock is taken back FIRST and a waiter that timed out leaves
+        # the waiters' list only afterwards - a notify() issued in between is spent on this waiter, which still
+        # reports a time-out (the stdlib's own users re-check their predicate for that reason).
         if isinstance(self._lock, RLock):
             self._lock._acquire_restore(st)
         else:
             SCHED.wait_until(lambda: self._lock._owner is None, None, 'cond.reacquire')
             self._lock._owner = SCHED.me() or 'unmanaged'
+        if not got:
+            try:
+                self._waiters.remove(token)     # identity comparison (see _Token)
+            except ValueError:
+                pass
         return got
 
     def wait_for(self, predicate, timeout=None):
